@@ -224,6 +224,12 @@ def run(phase, cases, ctx):
                                                'detail': f'{name}, values {vshape}, leaf {ls}, axes {ax}: got shape {got.shape} {got.ravel()[:8]}, reference shape {want.shape} {want.ravel()[:8]}'})
                             break
                     else:
+                        # the announced output structure is the structure of the product (both classes, every layout)
+                        decl = [(tuple(l.shape), np.dtype(l.dtype)) for l in jax.tree.leaves(op.out_structure())]
+                        act = [(tuple(np.shape(yy)), np.dtype(yy.dtype)) for yy in ys]
+                        if decl != act:
+                            violations.append({'kind': 'out_structure-not-the-product', 'case': one,
+                                               'detail': f'{name}, values {vshape}, leaf(s) {leafs}, axes {ax}: out_structure() announces {decl}, mv returns {act}'})
                         if strict and 'leafs' in case:
                             A = np.asarray(op.as_matrix(), float)
                             import scipy.linalg
